@@ -277,7 +277,16 @@ def check_c08_joiners(prop, tier, replay):
     def env(b, seed, out):
         e = _snap_env(b, seed, out)
         e["VERIF_SM"] = b["sm"]
+        e["VERIF_NH_VIRGIN"] = 1
         return e
+
+    def sig(op, fields, lines, at):
+        # structural signature of the recorded finding: the state machine wrote an empty image (it had applied
+        # nothing) and a replica that was streamed a snapshot panicked because the image looks like a shrunk one
+        if op == "Panic" and "not initial recovery but snapshot shrunk" in fields and \
+                any(e.get("ev") == "EmptyImage" for e in lines if e.get("i", 0) < at):
+            return "C08:joiners:empty-image-streamed-looks-shrunk"
+        return "C08:joiners:%s" % op
     return tv_run(prop, tier, replay, harness_dirs=HARNESS, pkg=".", test="TestVerifNhsim",
                   trace_module="MemberTrace", tag="MB-REPORT", count_tag="MB-COUNT",
                   batches=batches, env_of=env, mc=(),
@@ -285,6 +294,6 @@ def check_c08_joiners(prop, tier, replay):
                   build_name="nhsim", merge_into_existing=True,
                   what="an on-disk replica that joined through a streamed snapshot, took a snapshot of its own and "
                        "restarted did not come back (panic), or its membership differs from the rule table",
-                  sig_of=lambda op, f: "C08:joiners:%s" % op,
+                  sig_ctx=sig,
                   assumptions=["on-disk state machines only: members join while nothing is written (the snapshot they "
                                "receive has Index > OnDiskIndex), apply one more non-update entry, snapshot and restart"])
